@@ -22,7 +22,7 @@ from . import C03, C15
 REL = "inference/mcmc/parallel.py"
 FLOORS = {"task-exhaustive": 4, "reply-balance": 3, "kahn-discipline": 2, "swap-form": 3, "ladder-source": 1,
           "exchange-pair": 3, "equal-steps": 3, "collect-shutdown": 3,
-          "pair-disjoint": 4}
+          "pair-disjoint": 5}
 
 
 def worker_table(prog):
@@ -410,6 +410,9 @@ def _pair_disjoint(prog):
     out.append(struct_ob("pair-disjoint", qual(c, tp) + "[filter]", ok,
                          "after a pair is drawn every remaining candidate that shares a chain with it must be discarded "
                          "(kept iff disjoint from the drawn pair): " + why, REL, tp.lineno))
+    # (a') the candidate pool: every candidate is a pair of two different valid chain indices 0 <= a, b <= N-1 (an index N
+    # raises in swap(); a negative one silently names a chain a second time, so the disjointness filter no longer protects it)
+    out.append(_candidate_pairs_valid(prog, c, tp, loops[0] if len(loops) == 1 else None))
     # (b) leftovers are the chains in no drawn pair, paired by even/odd positions
     ok, why = False, "leftover pairing not found"
     lo = [s for s in ast.walk(tp) if isinstance(s, ast.Assign) and U(s.targets[0]) == "leftovers"]
@@ -449,6 +452,140 @@ def _pair_disjoint(prog):
     out.append(struct_ob("pair-disjoint", qual(c3_, sw) + "[source]", ok,
                          f"swap must take its proposed pairs from tight_pairs() or uniform_pairs(): {srcs}", REL, sw.lineno))
     return out
+
+
+def _lin(node, env):
+    """Integer-linear form {name: coeff, 1: const} of an index expression over the chain count N and bound loop variables."""
+    if isinstance(node, ast.Constant) and isinstance(node.value, int):
+        return {1: node.value}
+    if isinstance(node, ast.Name) and node.id in env:
+        return dict(env[node.id])
+    if isinstance(node, ast.Attribute) and U(node) == "self.N_chains":
+        return {"N": 1}
+    if isinstance(node, ast.BinOp) and isinstance(node.op, (ast.Add, ast.Sub)):
+        a, b = _lin(node.left, env), _lin(node.right, env)
+        if a is None or b is None:
+            return None
+        sg = 1 if isinstance(node.op, ast.Add) else -1
+        out = dict(a)
+        for k, v in b.items():
+            out[k] = out.get(k, 0) + sg * v
+        return out
+    if isinstance(node, ast.UnaryOp) and isinstance(node.op, ast.USub):
+        a = _lin(node.operand, env)
+        return None if a is None else {k: -v for k, v in a.items()}
+    return None
+
+
+def _candidate_pairs_valid(prog, c, tp, loop):
+    """Interval argument, for every chain count N >= 2, over the comprehension that builds the candidate pool:
+    `[(A, B) for i in range(R) for j in [c1, .., ck]]` optionally followed by `[:-1]` (which drops exactly the last generated
+    element, i = R-1, j = ck).  A and B are linear in i, j; the bounds of each over the remaining index set must lie in [0, N-1]
+    and A != B."""
+    rel_ok, why = False, "candidate pool not found"
+    pool_def = None
+    if loop is not None:
+        # the list the sampling loop draws from
+        names = {U(n.args[0]) for n in ast.walk(loop) if isinstance(n, ast.Call) and U(n.func) == "choice" and n.args}
+        for st in tp.body:
+            if isinstance(st, ast.Assign) and U(st.targets[0]) in names:
+                pool_def = st.value
+                break
+    if pool_def is not None:
+        drop_last = False
+        comp = pool_def
+        if isinstance(comp, ast.Subscript) and isinstance(comp.slice, ast.Slice) and comp.slice.lower is None and comp.slice.step is None \
+                and U(comp.slice.upper) == "-1":
+            drop_last, comp = True, comp.value
+        if isinstance(comp, ast.ListComp) and isinstance(comp.elt, ast.Tuple) and len(comp.elt.elts) == 2 and 1 <= len(comp.generators) <= 2 \
+                and not any(g.ifs for g in comp.generators):
+            g0 = comp.generators[0]
+            R_ = _lin(g0.iter.args[0], {}) if isinstance(g0.iter, ast.Call) and U(g0.iter.func) == "range" and len(g0.iter.args) == 1 else None
+            consts = None
+            if len(comp.generators) == 2:
+                g1 = comp.generators[1]
+                if isinstance(g1.iter, (ast.List, ast.Tuple)) and g1.iter.elts and all(
+                        isinstance(e, ast.Constant) and isinstance(e.value, int) for e in g1.iter.elts):
+                    consts = [e.value for e in g1.iter.elts]
+            else:
+                consts = [0]
+            if R_ is not None and consts is not None and isinstance(g0.target, ast.Name) and set(R_) <= {"N", 1}:
+                ivar = g0.target.id
+                jvar = comp.generators[1].target.id if len(comp.generators) == 2 else None
+                problems = []
+
+                def holds_from(form, upper, n0):
+                    """form(N) <= N - 1 (upper) / form(N) >= 0 (lower) for every N >= n0; form = {N: a, 1: b}"""
+                    a, b = form.get("N", 0), form.get(1, 0)
+                    if upper:
+                        a, b = a - 1, b + 1
+                        return a <= 0 and a * n0 + b <= 0
+                    return a >= 0 and a * n0 + b >= 0
+
+                def at(form, n):
+                    return form.get("N", 0) * n + form.get(1, 0)
+                aR, bR = R_.get("N", 0), R_.get(1, 0)
+                if aR not in (0, 1):
+                    raise AnalysisError(f"pair-disjoint[candidates]: range bound `{U(g0.iter.args[0])}` is not N + const")
+                env_l = {ivar: {"i": 1}, **({jvar: {"j": 1}} if jvar else {})}
+                for name, e in (("first", comp.elt.elts[0]), ("second", comp.elt.elts[1])):
+                    f = _lin(e, env_l)
+                    f = None if f is None else {k: v for k, v in f.items() if v != 0}
+                    if f is None or not set(f) <= {"i", "j", "N", 1}:
+                        problems.append(f"{name} index `{U(e)}` is not linear in the loop variables")
+                        continue
+                    ci_, cj_ = f.get("i", 0), f.get("j", 0)
+                    rest = {k: v for k, v in f.items() if k in ("N", 1)}
+
+                    def value(i_form, jv):
+                        val = dict(rest)
+                        for k, v in i_form.items():
+                            val[k] = val.get(k, 0) + ci_ * v
+                        val[1] = val.get(1, 0) + cj_ * jv
+                        return val
+                    hi_bad = lo_bad = False
+                    # small chain counts one by one (the index set changes shape while range(R) has fewer than two elements),
+                    # then the general case R >= 2 for every larger N
+                    n_gen = max(2, 2 - bR) if aR == 1 else 2
+                    for n in range(2, max(n_gen, 2) + 0):
+                        Rn = at(R_, n)
+                        pts = [(iv, jv) for iv in range(max(Rn, 0)) for jv in consts]
+                        if drop_last and pts:
+                            pts = pts[:-1]
+                        for iv, jv in pts:
+                            v = at(value({1: iv}, jv), n)
+                            hi_bad |= v > n - 1
+                            lo_bad |= v < 0
+                    if aR == 1 or bR >= 2:
+                        Rm1 = {"N": aR, 1: bR - 1}
+                        Rm2 = {"N": aR, 1: bR - 2}
+                        corners = [value({1: 0}, jv) for jv in consts] + [value(Rm2, jv) for jv in consts] + \
+                                  [value(Rm1, jv) for jv in (consts[:-1] if drop_last else consts)]
+                        hi_bad |= not all(holds_from(v, True, n_gen) for v in corners)
+                        lo_bad |= not all(holds_from(v, False, n_gen) for v in corners)
+                    if hi_bad:
+                        problems.append(f"{name} index `{U(e)}` can exceed N_chains - 1")
+                    if lo_bad:
+                        problems.append(f"{name} index `{U(e)}` can be negative (a negative index names a chain from the end: the same chain "
+                                        f"under two numbers)")
+                d = _lin(ast.BinOp(left=comp.elt.elts[1], op=ast.Sub(), right=comp.elt.elts[0]), {ivar: {"i": 1}, **({jvar: {"j": 1}} if jvar else {})})
+                d = None if d is None else {k: v for k, v in d.items() if v != 0}
+                if d is not None and set(d) <= {"j", 1}:
+                    vals = [d.get("j", 0) * jv + d.get(1, 0) for jv in consts]
+                    if any(v == 0 for v in vals):
+                        problems.append("a candidate pairs a chain with itself")
+                else:
+                    problems.append("the two indices of a candidate are not provably different")
+                rel_ok, why = not problems, "; ".join(problems) or f"i in range({U(g0.iter.args[0])}), offsets {consts}, last element dropped: {drop_last}"
+            else:
+                why = f"candidate pool `{U(pool_def)[:120]}` is not a comprehension over range(..) and a literal offset list"
+        else:
+            why = f"candidate pool `{U(pool_def)[:120]}` is not of the recognised comprehension shape"
+    if pool_def is not None and not rel_ok and "not of the recognised" in why or "not a comprehension" in why:
+        raise AnalysisError(f"pair-disjoint[candidates]: {why}")
+    return struct_ob("pair-disjoint", qual(c, tp) + "[candidates]", rel_ok,
+                     "every candidate pair must consist of two different chain indices in 0 .. N_chains - 1 for every chain count: " + why,
+                     REL, tp.lineno, tier="F")
 
 
 def _ladder_source(prog, mi, pt, tp):
